@@ -123,6 +123,12 @@ def Point.core (p : Point) : Pt × Bool × Option String × Option String := (p.
 
 /-! ## Cached representations are coherent -/
 
+/-- what a representation request answers when nothing is cached: the factory's exception, or its value -/
+def answer {β : Type} (err : Option Err) (fresh : β) : Except Err β :=
+  match err with
+  | some e => .error e
+  | none => .ok fresh
+
 /-- Every cached representation equals what its factory would return now. -/
 structure Contour.CacheOK (o : CurveOracle) (c : Contour) : Prop where
   bnd : ∀ b, c.bnd = some b → drawErr c.points = none ∧ b = freshBnd o c.points
